@@ -172,11 +172,89 @@ theorem convCrop_valid_centered (s1 s2 : Nat) (h2 : 1 ≤ s2) (h : s2 ≤ s1) :
     lo ≤ hiMargin ∧ hiMargin ≤ lo + 1 := by
   unfold convLen; omega
 
+/-! ## n-D boxes, an explicitly given convolution shape, the masking form -/
+
+/-- one axis of `centered`: when shrinking (or keeping) the extent the python slice is exactly
+`[(c-n)/2, (c-n)/2 + n)` — also for `n = c` (no reduction at all) and `n = 0` -/
+theorem centered_axis (c n : Nat) (h : n ≤ c) :
+    pySlice c (centerStart c n) (centerStop c n) = ((c - n) / 2, (c - n) / 2 + n) := by
+  have hs : centerStart c n = (((c - n) / 2 : Nat) : Int) := by unfold centerStart; omega
+  have he : centerStop c n = (((c - n) / 2 + n : Nat) : Int) := by
+    unfold centerStop; rw [hs]; push_cast; ring
+  rw [pySlice_inbounds _ _ _ (by rw [hs]; omega) (by rw [hs, he]; omega) (by rw [he]; omega)]
+  rw [hs, he]; simp only [Int.toNat_natCast]
+
+/-- every axis of the n-D centre box has the requested extent, starting `(c-n)/2` in -/
+theorem centeredBox_eq (cur new : List Nat) (h : List.Forall₂ (fun c n => n ≤ c) cur new) :
+    centeredBox cur new = List.zipWith (fun c n => ((c - n) / 2, (c - n) / 2 + n)) cur new := by
+  induction h with
+  | nil => rfl
+  | cons hcn _ ih =>
+    unfold centeredBox at ih ⊢
+    simp only [List.zipWith_cons_cons]
+    rw [centered_axis _ _ hcn, ih]
+
+/-- the backend's `extract_center` (truncating) cuts the same n-D box as `centered` (flooring) -/
+theorem extractBox_eq_centeredBox (cur new : List Nat) (h : List.Forall₂ (fun c n => n ≤ c) cur new) :
+    extractBox cur new = centeredBox cur new := by
+  induction h with
+  | nil => rfl
+  | cons hcn _ ih =>
+    unfold extractBox centeredBox at ih ⊢
+    simp only [List.zipWith_cons_cons]
+    rw [(extractCenter_eq_centerSlice _ _ hcn).1, (extractCenter_eq_centerSlice _ _ hcn).2, ih]
+
+/-- `same` out of an explicitly given convolution extent `conv ≥ s1`: extent `s1`, central in `conv` -/
+theorem convCrop_same_conv (conv s1 s2 : Nat) (h : s1 ≤ conv) :
+    convCrop .same conv s1 s2 = some ((conv - s1) / 2, s1) := by
+  unfold convCrop
+  simp only
+  rw [centered_axis conv s1 h]
+  simp
+
+/-- `valid` out of an explicitly given convolution extent -/
+theorem convCrop_valid_conv (conv s1 s2 : Nat) (h : s2 ≤ s1) (hv : s1 - s2 + s2 % 2 ≤ conv) :
+    convCrop .valid conv s1 s2 =
+      some ((conv - (s1 - s2 + s2 % 2)) / 2, s1 - s2 + s2 % 2) := by
+  unfold convCrop
+  simp only
+  have hvl : validLen s1 s2 = ((s1 - s2 + s2 % 2 : Nat) : Int) := by unfold validLen; omega
+  rw [hvl]
+  have hneg : ¬ (((s1 - s2 + s2 % 2 : Nat) : Int) < 0) := by omega
+  simp only [hneg, if_false, Int.toNat_natCast]
+  rw [centered_axis conv _ hv]
+  simp
+
+/-- any central window `[(conv-ext)/2, (conv-ext)/2+ext)` has margins that differ by at most one,
+the extra voxel on the far side -/
+theorem central_window_margins (conv ext : Nat) (h : ext ≤ conv) :
+    let lo := (conv - ext) / 2
+    let hiMargin := conv - (lo + ext)
+    lo ≤ hiMargin ∧ hiMargin ≤ lo + 1 := by
+  omega
+
+theorem inBox_cons (lo hi i : Nat) (bs : List (Nat × Nat)) (is : List Nat) :
+    inBox ((lo, hi) :: bs) (i :: is) = true ↔ lo ≤ i ∧ i < hi ∧ inBox bs is = true := by
+  simp [inBox, and_assoc]
+
+/-- the masking form keeps the shape -/
+theorem centeredMask_shape (a : Arr Int) (new : List Nat) : (centeredMask a new).shape = a.shape := rfl
+
+/-- the masking form keeps the values inside the centre box and zeroes everything else -/
+theorem centeredMask_spec (a : Arr Int) (new idx : List Nat) (h : inShape a.shape idx = true) :
+    (centeredMask a new).getD idx 0 =
+      if inBox (centeredBox a.shape new) idx then a.getD idx 0 else 0 := by
+  unfold centeredMask
+  rw [Arr.getD_ofFn _ _ _ _ h]
+
 /-! ## non-vacuity -/
 example : nextFastLen 17 = 18 ∧ nextFastLen 23 = 24 ∧ nextFastLen 11 = 11 := by decide
 example : convCrop .valid (convLen 10 4) 10 4 = some (3, 6) := by decide
 example : convCrop .same (convLen 10 5) 10 5 = some (2, 10) := by decide
 example : (topleftPad (⟨[2,2], #[1,2,3,4]⟩ : Arr Int) [3,3] 9).toList = [1,2,9,3,4,9,9,9,9] := by decide
 example : centerStart 9 4 = 2 ∧ centerStop 9 4 = 6 := by decide
+example : centeredBox [9, 6, 5] [4, 6, 2] = [(2, 6), (0, 6), (1, 3)] := by decide
+example : convCrop .same 16 10 5 = some (3, 10) := by decide
+example : (centeredMask (⟨[4], #[5,6,7,8]⟩ : Arr Int) [2]).toList = [0,6,7,0] := by decide
 
 end Pm.C13
